@@ -47,21 +47,25 @@ func firstNonPhi(b *ssa.BasicBlock) int {
 	return len(b.Instrs)
 }
 
-// rangeIndexPattern recognises the hidden index of a range-over-slice loop:
-// head: k = phi [-1, k+1]; k1 = k + 1; c = k1 < n; if c ...
-func rangeIndexPattern(b *ssa.BasicBlock) (*ssa.Phi, ssa.Value) {
-	phis := headPhis(b)
-	if len(phis) != 1 {
-		return nil, nil
-	}
-	var add *ssa.BinOp
+// rangeIndexPattern recognises the hidden index of a range-over-slice/int loop in
+// naive form: head: k = *cell; k1 = k + 1; *cell = k1; c = k1 < n; if c ...
+// (cell is the alloc named "rangeindex"). Returns the cell and the bound n.
+func rangeIndexPattern(b *ssa.BasicBlock) (*ssa.Alloc, ssa.Value) {
 	for _, in := range b.Instrs {
-		if bo, ok := in.(*ssa.BinOp); ok {
-			if bo.Op == token.ADD && bo.X == phis[0] {
-				add = bo
-			} else if bo.Op == token.LSS && add != nil && bo.X == add {
-				return phis[0], bo.Y
-			}
+		bo, ok := in.(*ssa.BinOp)
+		if !ok || bo.Op != token.LSS {
+			continue
+		}
+		add, ok := bo.X.(*ssa.BinOp)
+		if !ok || add.Op != token.ADD {
+			continue
+		}
+		ld, ok := add.X.(*ssa.UnOp)
+		if !ok || ld.Op != token.MUL {
+			continue
+		}
+		if a, ok := ld.X.(*ssa.Alloc); ok && a.Comment == "rangeindex" {
+			return a, bo.Y
 		}
 	}
 	return nil, nil
@@ -89,20 +93,18 @@ func (u *Unit) loopEnv(st *State, fr *Frame, head *ssa.BasicBlock) *SpecEnv {
 			env.vars[p.Name()] = fr.params[i]
 		}
 	}
-	phis := headPhis(head)
-	for _, p := range phis {
-		if isInteger(p.Type()) {
-			if v, ok := fr.regs[p]; ok {
-				env.vars["$k"] = v
-				env.vars["$n"] = intVal(fmt.Sprintf("(+ %s 1)", v.Terms[0]))
-			}
-			break
+	if cell, _ := rangeIndexPattern(head); cell != nil {
+		if cells, ok := u.frameOf(st, fr).locals[cell]; ok {
+			env.vars["$k"] = intVal(cells[0])
+			env.vars["$n"] = intVal(fmt.Sprintf("(+ %s 1)", cells[0]))
 		}
 	}
 	return env
 }
 
 type invItem struct {
+	spec  *Spec
+	env   *SpecEnv
 	label string
 	term  Term
 	src   string
@@ -112,10 +114,10 @@ type invItem struct {
 
 func (u *Unit) loopInvariants(st *State, fr *Frame, head *ssa.BasicBlock, ord int) []invItem {
 	var out []invItem
-	if phi, n := rangeIndexPattern(head); phi != nil {
-		if pv, ok := fr.regs[phi]; ok {
+	if cell, n := rangeIndexPattern(head); cell != nil {
+		if cells, ok := fr.locals[cell]; ok {
 			nv := u.val(st, n)
-			out = append(out, invItem{label: "auto-range", term: fmt.Sprintf("(and (<= (- 1) %s) (< %s %s))", pv.Terms[0], pv.Terms[0], nv.Terms[0]), src: "-1 <= $k < len (range index)"})
+			out = append(out, invItem{label: "auto-range", term: fmt.Sprintf("(and (<= (- 1) %s) (< %s %s))", cells[0], cells[0], nv.Terms[0]), src: "-1 <= $k < len (range index)"})
 		}
 	}
 	var spec *LoopSpec
@@ -136,7 +138,7 @@ func (u *Unit) loopInvariants(st *State, fr *Frame, head *ssa.BasicBlock, ord in
 		if label == "" {
 			label = fmt.Sprintf("%d", i+1)
 		}
-		out = append(out, invItem{label: label, term: t, src: c.Src, where: c.Where, props: c.Props})
+		out = append(out, invItem{label: label, term: t, src: c.Src, where: c.Where, props: c.Props, spec: c.Expr, env: env})
 	}
 	return out
 }
@@ -282,6 +284,9 @@ func (u *Unit) enterLoopHead(st *State, fr *Frame, head *ssa.BasicBlock, li *loo
 	// assume invariants
 	for _, it := range u.loopInvariants(st, fr, head, ord) {
 		st.assume(it.term)
+		if it.spec != nil {
+			u.harvest(st, it.env, it.spec, "true", 0)
+		}
 	}
 	ls := &loopState{}
 	if fr.contract != nil {
